@@ -176,6 +176,7 @@ AllAggs == {
 }
 SomeAggs == {CountStar, CountV, SumV, MinK, [a |-> "string_agg", e |-> K, delim |-> Comma, as |-> "sa", wrap |-> NoE],
              [a |-> "percentile", e |-> V, pn |-> 1, pd |-> 2, as |-> "p50", wrap |-> NoE], ItE("bool_and", VPos, "ba"), SaCase}
+ArrKey == CaseE(<<<<CmpE(">", V, One), Call("array", <<K, Lit(A)>>)>>>>, Call("array", <<K>>))
 AggMenu ==
   {Agg(<<KeyK, x>>, <<K>>, NoE, NoH, FALSE, NoLimit, "none") : x \in AllAggs}
   \cup {Agg(<<x, KeyK>>, <<K>>, NoE, NoH, FALSE, NoLimit, "none") : x \in SomeAggs}
@@ -207,6 +208,9 @@ AggMenu ==
         Agg(<<KeyK, [SumV EXCEPT !.wrap = Arith("*", Col("$value"), Two)]>>, <<K>>, NoE, HAgg(SumV, ">=", IntV(2)), FALSE, NoLimit, "none"),
         Agg(<<[CountStar EXCEPT !.wrap = Arith("-", Col("$value"), One)], KeyK>>, <<K>>, NoE, HAgg(CountStar, ">=", IntV(2)), FALSE, NoLimit, "none"),
         Agg(<<KeyK, [MaxOfV EXCEPT !.wrap = Arith("+", Col("$value"), Lit(IntV(10)))], SumV>>, <<K>>, NoE, [h |-> "and", l |-> HAgg(MaxOfV, "<", IntV(5)), r |-> HAgg(SumV, ">", IntV(0))], FALSE, NoLimit, "none"),
+        \* groups keyed by arrays of different lengths: ascending order is element by element (a prefix before its extensions: {a} < {a,a} < {b} < {b,a}), MIN / MAX likewise
+        Agg(<<ItE("key", ArrKey, "g"), CountStar>>, <<ArrKey>>, NoE, NoH, FALSE, NoLimit, "none"),
+        Agg(<<ItE("min", ArrKey, "lo"), ItE("max", ArrKey, "hi")>>, <<>>, IsE(FALSE, K, Lit(Null)), NoH, FALSE, NoLimit, "none"),
         Agg(<<KeyK, ItE("key", V, "v"), CountStar>>, <<K, V>>, NoE, NoH, FALSE, NoLimit, "none"),
         Agg(<<ItE("key", V, "v"), CountStar>>, <<K>>, NoE, NoH, FALSE, NoLimit, "none")}       \* key expression not in GROUP BY: error
 
@@ -507,6 +511,11 @@ JoinSetsMixed == {LongJoinMixed}
 \* a file that starts with a byte order mark: its first line keeps it, in batch mode as in follow mode
 LinesBom == {BomPre, KV(A, IntV(2)), Garbage}
 BomMenu == CoreMenu \cup {Sel(<<P(Col("input"), ""), P(K, "key")>>, NoE, FALSE, NoLimit, "none"), Sel(<<P(Call("length", <<Col("input")>>), "n")>>, NoE, TRUE, NoLimit, "none")}
+\* lines that end in white space (a blank, blank + tab, NO-BREAK SPACE, a carriage return that is not part of a line end because a blank follows it): every reader
+\* (batch, line by line, follow mode) hands the engine the same line -- `input`, its length, DISTINCT on it, an anchored pattern
+LinesPost == {KVPost(A, IntV(1), <<32>>), KVPost(A, IntV(1), <<32, 9>>), KV(A, IntV(1)), KVPost(B, IntV(2), <<160>>), KVPost(A, IntV(1), <<13, 32>>), KVPost(A, IntV(1), <<32, 12288>>)}
+PostMenu == BomMenu \cup {Sel(<<P(Col("input"), "")>>, NoE, TRUE, NoLimit, "none"), Agg(<<ItE("key", Col("input"), "line"), CountStar>>, <<Col("input")>>, NoE, NoH, FALSE, NoLimit, "none"),
+                          Agg(<<ItE("max", Call("length", <<Col("input")>>), "len"), ItC("count_distinct", "input", "d")>>, <<>>, NoE, NoH, FALSE, NoLimit, "none")}
 Lines3 == {KV(A, IntV(1)), KV(B, IntV(2)), KV(Null, IntV(0)), KV(A, Null), Garbage}
 LinesJ == {KV(A, IntV(1)), KV(B, IntV(2)), KV(Null, IntV(1))}
 JoinSets == {<<KV(A, IntV(5)), KV(A, IntV(5)), KV(B, IntV(5))>>, <<>>, <<KV(A, IntV(5))>>, <<KV(A, IntV(0)), KV(A, IntV(5))>>, <<KV(B, IntV(5)), KV(A, IntV(5)), KV(A, IntV(6))>>, <<KV(A, IntV(5)), KV(A, IntV(0)), KV(Null, IntV(9))>>, <<KV(B, IntV(1)), Garbage, KV(A, IntV(3))>>}
